@@ -384,6 +384,13 @@ Proof.
   replace (ty =? 47) with false by lia.
   repeat (apply andb_true_intro; split); try reflexivity; lia.
 Qed.
+Lemma as_u8_byte v : byte_ok (as_u8 v) = true.
+Proof. unfold byte_ok, as_u8. pose proof (Z.mod_pos_bound v 256 ltac:(lia)). lia. Qed.
+Lemma cmd_port_eok tp v : Forall eok (Cmd.cmd_port tp v).
+Proof.
+  constructor; [|constructor]. unfold eok, event_ok, Cmd.cmd_port, ev_meta, bytes_ok, data7. cbn [e_type e_data e_v1 e_v2 e_v3 forallb].
+  rewrite as_u8_byte. reflexivity.
+Qed.
 Lemma exec_rpn_direct_inv s nrpn args : events_inv s -> events_inv (exec_rpn_direct s nrpn args).
 Proof.
   intros H. destruct (exec_rpn_direct_cases_plain s nrpn args) as [(f & -> & Hf)|[m ->]];
@@ -497,6 +504,7 @@ Proof.
              | apply exec_time_signature_inv, H
              | apply tempo_change_inv, H
              | apply add_events_inv; [ext_plain|exact H]
+             | apply add_events_inv_eok; [intros; apply cmd_port_eok|exact H]
              | apply exec_rpn_direct_inv, H
              | apply inv_upd_cur; [intros t0 Ht0; first [destruct w; exact Ht0 | apply track_inv_on_rt; [rsv_ext|exact Ht0]]|exact H]
              | apply add_events_inv; [ext_plain|];
